@@ -314,6 +314,7 @@ bool ManifestParser::ParseEdge(string* err) {
 
   // Bindings on edges are rare, so allocate per-edge envs only when needed.
   bool has_indent_token = lexer_.PeekToken(Lexer::INDENT);
+  const bool has_own_bindings = has_indent_token;
   BindingEnv* env = has_indent_token ? new BindingEnv(env_) : env_;
   while (has_indent_token) {
     string key;
@@ -327,6 +328,7 @@ bool ManifestParser::ParseEdge(string* err) {
 
   Edge* edge = state_->AddEdge(rule);
   edge->env_ = env;
+  edge->env_is_enclosing_scope_ = !has_own_bindings;
 
   string pool_name = edge->GetBinding("pool");
   if (!pool_name.empty()) {
